@@ -21,7 +21,7 @@ RULE = (
     "distinct by (input, stream, element)."
 )
 ASSUMPTIONS = ["masses are RDKit HeavyAtomMolWt floats read at attach_other exit, in the library's own order of operations"]
-FLOORS = {"quick": {"objects_decided": 1500, "boundary_pairs": 60, "blackbox_objects": 200, "distinct_nontrivial": 400}, "thorough": {"objects_decided": 30000, "boundary_pairs": 1200}}
+FLOORS = {"quick": {"objects_decided": 1000, "boundary_pairs": 60, "blackbox_objects": 200, "distinct_nontrivial": 400}, "thorough": {"objects_decided": 20000, "boundary_pairs": 1200}}
 
 
 def plan(tier, seed):
